@@ -692,6 +692,7 @@ func (fv *FV) verify() (err error) {
 		}
 	}
 	fv.numberLoops(fd.Body)
+	fv.funcCands = fv.collectFuncCands(fd.Body)
 	fv.entry = st.clone()
 	fv.emitAxioms(st)
 	if fv.fc != nil {
@@ -805,13 +806,13 @@ type loopEffects struct {
 
 type effTarget struct {
 	wholeArray bool // append: may write beyond len
-	key  string
-	base ast.Expr // expression whose value identifies the reference (pointer for fields, slice for elements); nil = whole
-	call *ast.CallExpr
-	mod  SExpr
-	fc   *FuncContract
-	pc   *PkgContracts
-	names map[string]ast.Expr
+	key        string
+	base       ast.Expr // expression whose value identifies the reference (pointer for fields, slice for elements); nil = whole
+	call       *ast.CallExpr
+	mod        SExpr
+	fc         *FuncContract
+	pc         *PkgContracts
+	names      map[string]ast.Expr
 }
 
 func (fv *FV) loopSpec(ord int) *LoopSpec {
@@ -1260,47 +1261,19 @@ func (fv *FV) callEffects(eff *loopEffects, c *ast.CallExpr) {
 			callee, _ = fv.info.ObjectOf(f.Sel).(*types.Func)
 		}
 	}
-	if callee != nil {
-		fi := fv.w.lookupFunc(callee)
-		var fc *FuncContract
-		var pc *PkgContracts
-		if fi != nil {
-			fc, pc = fi.Contract, fi.PC
-		} else {
-			fc, pc = fv.w.libContract(callee)
-		}
-		if fc == nil {
-			if fv.ifaceCallEffects(eff, callee, recvExpr, c) {
+	if callee == nil {
+		if id, ok := fun.(*ast.Ident); ok {
+			if cands := fv.funcCands[fv.info.ObjectOf(id)]; len(cands) > 0 {
+				// a local that only ever holds known functions: the union of their effects
+				for _, cand := range cands {
+					fv.staticCallEffects(eff, cand.fn, cand.recvArg(c), cand.args(c), c)
+				}
 				return
 			}
-			return // reported when the call is executed
 		}
-		if !fc.Pure {
-			eff.allocs = true
-		}
-		osig := callee.Origin().Type().(*types.Signature)
-		if recvExpr != nil && osig.Recv() != nil {
-			if _, wantPtr := osig.Recv().Type().(*types.Pointer); wantPtr {
-				if id, ok := ast.Unparen(recvExpr).(*ast.Ident); ok {
-					if _, isPtr := fv.typeOf(recvExpr).Underlying().(*types.Pointer); !isPtr {
-						if o := fv.info.ObjectOf(id); o != nil {
-							eff.locals[o] = true // boxed and written back by the call
-						}
-					}
-				}
-			}
-		}
-		names := map[string]ast.Expr{}
-		if recvExpr != nil && osig.Recv() != nil {
-			names[osig.Recv().Name()] = recvExpr
-			names["self"] = recvExpr
-		}
-		for i := 0; i < osig.Params().Len() && i < len(c.Args); i++ {
-			names[osig.Params().At(i).Name()] = c.Args[i]
-		}
-		for _, m := range fc.Modifies {
-			eff.targets = append(eff.targets, effTarget{call: c, mod: m, fc: fc, pc: pc, names: names})
-		}
+	}
+	if callee != nil {
+		fv.staticCallEffects(eff, callee, recvExpr, c.Args, c)
 		return
 	}
 	// function value: role effects
@@ -1370,10 +1343,10 @@ func (fv *FV) callEffects(eff *loopEffects, c *ast.CallExpr) {
 func (fv *FV) applyEffects(pre, head *State, eff *loopEffects) {
 	// first pass: component keys of call effects (needed for the invariance test)
 	type resolved struct {
-		key string
-		ref string
+		key    string
+		ref    string
 		lo, hi string
-		ok  bool // targeted
+		ok     bool // targeted
 	}
 	var res []resolved
 	invariantExpr := func(e ast.Expr) bool {
@@ -1683,4 +1656,50 @@ func (fv *FV) pointerSource(nodes []ast.Node, obj types.Object) ast.Expr {
 		})
 	}
 	return found
+}
+
+// staticCallEffects adds the effects of a call to a known function (its `modifies` clauses, renamed to the call's
+// receiver and argument expressions).
+func (fv *FV) staticCallEffects(eff *loopEffects, callee *types.Func, recvExpr ast.Expr, args []ast.Expr, c *ast.CallExpr) {
+	fi := fv.w.lookupFunc(callee)
+	var fc *FuncContract
+	var pc *PkgContracts
+	if fi != nil {
+		fc, pc = fi.Contract, fi.PC
+	} else {
+		fc, pc = fv.w.libContract(callee)
+	}
+	if fc == nil {
+		if fv.ifaceCallEffects(eff, callee, recvExpr, c) {
+			return
+		}
+		return // reported when the call is executed
+	}
+	if !fc.Pure {
+		eff.allocs = true
+	}
+	osig := callee.Origin().Type().(*types.Signature)
+	if recvExpr != nil && osig.Recv() != nil {
+		if _, wantPtr := osig.Recv().Type().(*types.Pointer); wantPtr {
+			if id, ok := ast.Unparen(recvExpr).(*ast.Ident); ok {
+				if _, isPtr := fv.typeOf(recvExpr).Underlying().(*types.Pointer); !isPtr {
+					if o := fv.info.ObjectOf(id); o != nil {
+						eff.locals[o] = true // boxed and written back by the call
+					}
+				}
+			}
+		}
+	}
+	names := map[string]ast.Expr{}
+	if recvExpr != nil && osig.Recv() != nil {
+		names[osig.Recv().Name()] = recvExpr
+		names["self"] = recvExpr
+	}
+	for i := 0; i < osig.Params().Len() && i < len(args); i++ {
+		names[osig.Params().At(i).Name()] = args[i]
+	}
+	for _, m := range fc.Modifies {
+		eff.targets = append(eff.targets, effTarget{call: c, mod: m, fc: fc, pc: pc, names: names})
+	}
+	return
 }
